@@ -28,6 +28,17 @@ func updateKeyword(t Tok) string {
 
 func (p *parser) plainPath() bool {
 	t := p.peek()
+	if !p.bad && t.K == TLParen {
+		// permissive reading: a parenthesised operand is tolerated
+		p.next()
+		p.updValue()
+		if p.bad || p.peek().K != TRParen {
+			p.bad = true
+			return false
+		}
+		p.next()
+		return true
+	}
 	if p.bad || t.K != TWord || keyword(t) != "" || updateKeyword(t) != "" {
 		p.bad = true
 		return false
@@ -38,6 +49,10 @@ func (p *parser) plainPath() bool {
 
 func (p *parser) updTerm() {
 	t := p.peek()
+	if !p.bad && t.K == TLParen {
+		p.plainPath()
+		return
+	}
 	if p.bad || t.K != TWord {
 		p.bad = true
 		return
